@@ -73,6 +73,15 @@ claim("C17", "access-control model of governance messages over generated histori
   "Parameter changes, upgrades and DAO transfers/burns by owners, owners of other keys and strangers with well-formed/malformed values: non-owner => rejected and only the fee changes; owner + well-formed => exactly that raw parameter entry changes to the canonical encoding; DAO => exact account and supply deltas.",
   "unknown subspaces with ACL entries and reachable upgrade heights end in a deliberate os.Exit and are not generated; " + CH, "DESIGN.md §4 C17")
 
+claim("C19", "oracle-by-construction over generated keys, messages and (nested) multisignatures + model-based state machine over the keybase (rapid)", "exploration",
+  "Signatures are produced for generated key trees and messages with at most one mutation (foreign key, other message, bit flip, truncation, extension, dropped/swapped/duplicated/extra/foreign multisig component, verification against another key or message): VerifyBytes must be true exactly when nothing was mutated. Keybase programs of create/import/update/delete/sign/export operations with right and wrong passphrases are compared with a map model incl. List() after every step.",
+  "scrypt cost bounds the keybase depth; the in-memory keybase is used; keys from Keybase.Create come from system randomness and only enter the model through their reported public key",
+  "DESIGN.md §4 C19")
+claim("C20", "round-trip and metamorphic property testing over generated wire/storage values (rapid) + coverage-guided native go fuzzing of the decoders in the thorough tier", "exploration",
+  "Generated values of every wire/storage type are round-tripped through amino JSON, length-prefixed and bare binary (re-encoding equality, absent==empty); StdTx sign bytes must be identical across encodings incl. permuted/reindented JSON and differ for any single-field change; 11 decoders are fed random and mutated-valid bytes (error or consistently re-encodable value, never a panic); power-rank and unstaking-queue keys must parse back and order like their values. Thorough adds go test -fuzz campaigns on 9 decoder targets.",
+  "amino itself is trusted for the generic struct encoding; DeliverTx/CheckTx on arbitrary bytes are covered by C11 (and its FuzzDeliverTx target)",
+  "DESIGN.md §4 C20")
+
 NOT_YET = "check not built yet in this revision (work in progress, see DESIGN.md Appendix C)"
 m = dict(version=1,
   setup_cmd="./verif.sh build",
